@@ -3,6 +3,7 @@ import os, importlib.util
 
 ID = "C11"
 PROPS = "Props/C11.v"
+GEN = ["sm4tables", "sm4consts"]
 LEGS = [{"driver": "c11", "runner": ("sm4modes", "Extract/ExtractSM4Modes.v", "Sm4modes_model")}]
 
 TECHNIQUE = ("Coq proof that a function-by-function model of the mode helpers of sm4.go equals SP 800-38A ECB/CBC/CFB-128/OFB over the "
@@ -23,6 +24,7 @@ LEVEL_NOTE = ("Trusted: Coq kernel, extraction (ExtrOcamlBasic only), the hand-w
               "that encryption cannot produce (ragged length, invalid pad) returns an empty result and a nil error - recorded, outside the property. "
               "SetIV stores the caller's slice (aliasing): values, not aliasing, are modelled for the IV.")
 TRUSTED_BASE = [
+    "translator harness/cmd/gen target sm4consts (integer literals of every function of sm4.go / sm4_gcm.go, package-level variables) -> coq/Gen/SM4Consts.v; sm4tables via the SM4 instantiation",
     "specification coq/SM4/ModesSpec.v transcribed by hand from NIST SP 800-38A (ECB, CBC, CFB s=128, OFB) and RFC 5652 6.3",
     "model coq/SM4/ModesModel.v written by hand from sm4/sm4.go; tied by the correspondence run of this check",
     "block cipher abstract in the theorems (Record block_cipher); instantiated by SM4Spec (C11_sm4_is_block_cipher); C05 ties sm4.go's cipher.Block to SM4Spec",
